@@ -851,6 +851,10 @@ class Interp:
             if not ok:
                 later = any(h[0] == 'grp' and entry in h[1]
                             for h in self.fifo[1:])
+                if len(head) > 3 and head[3] == 'reap':
+                    # what was skipped is a notification owed by a deferred
+                    # deletion ("removed and notified")
+                    owner = tuple(owner) + ('C05',)
                 self.fail(owner, 'callback_order' if later
                           else 'callback_extra',
                           f'release delivered {entry} while the next '
@@ -1427,19 +1431,25 @@ class Interp:
             want_all = Counter((repr(eid), f'c{i}')
                                for eid, row in self.ents.items()
                                for i in row.values())
-            got_all = Counter((repr(e), getattr(c, '_label', '?'))
-                              for e, c in w.get(object))
+            # (every class alive in the interpreter is visited - how many
+            # there are depends on what the process did before: this walk
+            # gets a budget of its own, far above any honest walk)
+            with kernel.budget(20_000_000, charge=False):
+                got_all = Counter((repr(e), getattr(c, '_label', '?'))
+                                  for e, c in w.get(object))
             if got_all != want_all:
                 self.fail(('C01', 'C06'), 'get_mismatch', f'get(object) = '
                           f'{sorted(got_all.elements())}, expected every '
                           f'attached component {sorted(want_all.elements())}')
-            for eid in ids:
+            for eid in ids[:3]:
                 row = self.ents.get(eid, {})
-                if bool(w.has_component(eid, object)) != bool(row):
+                with kernel.budget(20_000_000, charge=False):
+                    has_o = bool(w.has_component(eid, object))
+                    g = w.get_component(eid, object)
+                if has_o != bool(row):
                     self.fail(('C01', 'C06'), 'has_component_mismatch',
                               f'has_component({eid!r}, object) disagrees '
                               f'with the {len(row)} attached component(s)')
-                g = w.get_component(eid, object)
                 if (g is None) != (not row) or (
                         g is not None and getattr(g, '_label', None)
                         not in {f'c{i}' for i in row.values()}):
